@@ -842,6 +842,25 @@ def violation_key(ctx, step, unstable, bad=None):
         if acc:
             return "C01/normalised-collision/" + sorted(set(a.split(">")[-1] for a in acc))[0]
         return "C01/normalised-collision/unlocated/" + kind
+    if kind == "deser" and inst[0] == "struct" and bad:
+        # the listed normalisation-collision defect reached through the deserializer's own conversion of the
+        # document (a JSON list for a Deque/Set/Tuple field: the model's [stable] clause looks at the constructor's
+        # argument, which the document is not): the collection-level constraint holds of the SUPPLIED elements
+        # (as Python compares them) and fails of the stored, converted ones
+        try:
+            decl0 = {fd["name"]: fd["field"] for fd in ctx.all_fields(inst[1])}
+            acc = []
+            for i in bad:
+                if i < len(inst[2]) and inst[2][i][0] in decl0:
+                    n0, stored = inst[2][i]
+                    supplied = dict((k0, v0) for k0, v0 in en[2]).get(n0)
+                    got = find_collisions(decl0[n0], stored, [])
+                    if got and supplied is not None and not find_collisions(decl0[n0], supplied, []):
+                        acc += got
+            if acc and len(acc) >= len([i for i in bad if i < len(inst[2])]):
+                return "C01/normalised-collision/" + sorted(set(a.split(">")[-1] for a in acc))[0]
+        except KeyError:
+            pass
     extra = ""
     where = ""
     if inst[0] == "struct":
